@@ -348,8 +348,16 @@ class ParseTreeMap(Generic[ClassType1, ObjType1, ClassType2, ObjType2]):
         if not rule1.children:
             return ParseTreeMap._min_object(rule2)
 
-        assert isinstance(rule1, Rule) and isinstance(rule2, Rule)
+        assert isinstance(rule1, Rule)
         mapped_obj, idx = rule1.indexed_forward_map(obj)
+
+        if not isinstance(rule2, Rule):
+            # The codomain already reached an atom while the domain is still on an
+            # equivalence path leading to the matching atom: move along the domain.
+            assert rule1.is_equivalence()
+            return self.map_rec(
+                mapped_obj[0], self.domain.rules_dict[rule1.children[0]], rule2
+            )
 
         if rule2.is_equivalence():
             if not rule1.is_equivalence():
